@@ -17,6 +17,15 @@ Inductive ocl :=
 | ODecodeOther                          (* any other bincode DecodeError *)
 | OOther.                               (* InvalidWASM / IoError / ... *)
 
+(* outcome of Rules::deserialize on a damaged blob, observed from outside the process *)
+Inductive fcl :=
+| FErr                 (* an error was returned *)
+| FOkSame              (* accepted, and every table equals the original's (digest) *)
+| FOkDiff              (* accepted with different content: the format has no checksum *)
+| FPanic | FAbort      (* panic caught in the child / child killed by a signal *)
+| FMem.                (* peak resident memory above the bound *)
+Definition fcl_ok (f : fcl) : bool := match f with FErr | FOkSame | FOkDiff => true | _ => false end.
+
 Definition ocl_eqb (a b : ocl) : bool :=
   match a, b with
   | OOk, OOk | OPanic, OPanic | OFormat, OFormat | ODecodeEof, ODecodeEof
@@ -50,8 +59,9 @@ Inductive case :=
    equal, scan dumps equal (all buffers), the three blobs equal (byte for byte,
    or up to the order of hash-map entries: FxHashMap iteration order is not
    preserved by a round trip),
-   serialize_into/deserialize_from agree with serialize/deserialize *)
-| CBehav (hdr : list N) (deser_ok static_eq scans_eq reser_eq stream_api_eq : bool)
+   serialize_into/deserialize_from agree with serialize/deserialize, the digests of every
+   table the scanner reads (hook Rules::verif_c08_digest, no serde involved) are equal *)
+| CBehav (hdr : list N) (deser_ok static_eq scans_eq reser_eq stream_api_eq digest_eq : bool)
 (* (c) prefixes of a real blob: result on the full blob, then tested ranges
    [lo, hi] of prefix lengths sharing one outcome class *)
 | CPrefix (hdr : list N) (bloblen : N) (full : ocl) (segs : list (N * N * ocl))
@@ -64,6 +74,15 @@ Inductive case :=
    `struct Rules`; must be consumed exactly, be well-typed, and re-encode to the
    same bytes *)
 | CBlob (bs : list N)
+(* (d) the globals blob found inside a real blob (Rules::serialized_globals): decoded by the
+   model decoder of the generated shape of types::Struct, exactly, and re-encoded *)
+| CGlobals (bs : list N)
+(* (c') single-bit flips in a real blob, run in a child process with an address-space bound:
+   [frames] = (offset, length) of every framing integer of the payload found by the harness's
+   walker; [flips] = a sample (position, new byte, outcome) also decoded by the model *)
+| CFlipModel (bs : list N) (frames : list (N * N)) (flips : list (N * N * ocl))
+(* (c') all flips performed on one blob: (position, bit, outcome) *)
+| CBodyFlips (flips : list (N * N * fcl))
 (* bytes appended to a valid blob (not part of the property; the model says
    they are ignored) *)
 | CTrailing (o : ocl).
@@ -81,7 +100,7 @@ Definition check_case (c : case) : bool :=
   | CEnc t v bs =>
       wt t v && bytes_eqb (encode v) bs && dout_matches (run (decode t) bs) (DoOk v (length bs))
   | CDec t bs o => dout_matches (run (decode t) bs) o
-  | CBehav hdr d s1 s2 r a => bytes_eqb hdr header && d && s1 && s2 && r && a
+  | CBehav hdr d s1 s2 r a g => bytes_eqb hdr header && d && s1 && s2 && r && a && g
   | CPrefix hdr len full segs =>
       bytes_eqb hdr header && ocl_eqb full OOk &&
       forallb (fun s => let '(lo, hi, o) := s in
@@ -100,13 +119,44 @@ Definition check_case (c : case) : bool :=
       | DOk v n => Nat.eqb n (length bs) && wt rules_ty v && bytes_eqb (serialize (encode v)) bs
       | DErr _ => false
       end
+  | CFlipModel bs fr flips =>
+      match deserialize (decode rules_ty) (fun _ => true) bs with
+      | DOk v n =>
+          Nat.eqb n (length bs) &&
+          (* the harness located the framing integers where the model has them *)
+          (fix eqb (a : list (nat * nat)) (b : list (N * N)) : bool :=
+             match a, b with
+             | [], [] => true
+             | (o1, l1) :: a', (o2, l2) :: b' => N.eqb (N.of_nat o1) o2 && N.eqb (N.of_nat l1) l2 && eqb a' b'
+             | _, _ => false
+             end) (fst (frames v data_offset)) fr &&
+          (* the model's verdict on each damaged blob against the implementation's: end of input
+             and invalid data must agree; what the model accepts may still be refused by the
+             post-decode steps the model does not have (daachorse, WASM, bitvec checks) *)
+          forallb (fun f => let '(pos, b, o) := f in
+                     match deserialize (decode rules_ty) (fun _ => true) (upd (N.to_nat pos) b bs) with
+                     | DErr (DecodeError Eof) => ocl_eqb o ODecodeEof
+                     | DErr (DecodeError Invalid) => ocl_eqb o ODecodeOther
+                     | DErr e => ocl_eqb o (ocl_of_header (Some e))
+                     | DOk _ _ => negb (ocl_eqb o OPanic) && negb (ocl_eqb o ODecodeEof)
+                     end) flips
+      | DErr _ => false
+      end
+  | CBodyFlips flips => forallb (fun f => fcl_ok (snd f)) flips
+  | CGlobals bs =>
+      match run (decode globals_ty) bs with
+      | Ok v n => Nat.eqb n (length bs) && wt globals_ty v && bytes_eqb (encode v) bs
+      | Err _ => false
+      end
   | CTrailing o => ocl_eqb o OOk
   end.
 
 Definition spec_case (c : case) : bool :=
   match c with
-  | CEnc _ _ _ | CDec _ _ _ | CBlob _ => true
-  | CBehav _ d s1 s2 r a => d && s1 && s2 && r && a
+  | CEnc _ _ _ | CDec _ _ _ | CBlob _ | CGlobals _ => true
+  | CFlipModel _ _ flips => forallb (fun f => negb (ocl_eqb (snd f) OPanic)) flips
+  | CBodyFlips flips => forallb (fun f => fcl_ok (snd f)) flips
+  | CBehav _ d s1 s2 r a g => d && s1 && s2 && r && a && g
   | CPrefix _ _ full segs => ocl_eqb full OOk && forallb (fun s => is_err (snd s)) segs
   | CHeader _ _ alts => forallb (fun a => is_err (snd a)) alts
   | CForeign _ o => is_err o
